@@ -235,7 +235,7 @@ class ItemResult(dict):
 
 
 def symbolic_run(scenario, cfg, tier, *, max_paths=400, obl_timeout_ms=None, validate=True,
-                 feas_timeout_ms=3000, seed=0, rtol=1e-6):
+                 feas_timeout_ms=3000, seed=0, rtol=1e-6, twin_exceptions=False):
     """Run `scenario(V, P, cfg)` on all paths; decide obligations; vacuity guard; encoding validation.
 
     scenario returns a dict of observables (name -> scalar/array/None) or None.
@@ -346,6 +346,13 @@ def symbolic_run(scenario, cfg, tier, *, max_paths=400, obl_timeout_ms=None, val
                 out["validated"] = 1
         except Exception as e:
             out["notes"].append("twin: concrete run raised %s: %s" % (type(e).__name__, str(e)[:200]))
+            if twin_exceptions and _raised_in_repo(e):
+                # (opt-in per harness) the real library raises for the model's numbers where the symbolic run completed: handed
+                # to the runner as an exception case, which replays it on the real code (VIOLATION / known finding if it
+                # reproduces; "the call completes without raising" is a clause of the property)
+                out.setdefault("exceptions", []).append(dict(type=type(e).__name__, msg=str(e)[:300],
+                                                             tb=traceback.format_exc()[-1500:], feasible="twin", model=twin["env"],
+                                                             path=-1))
     out["stats"] = dict(c.stats)
     out["solver_time"] = out.get("solver_time", 0.0) + c.stats["solver_time"]
     out["stubs"] = sorted(c.stubs)
